@@ -159,8 +159,9 @@
 
     /// A Content-Length framed H2 request followed by its DATA and by a trailer HEADERS frame: towards an HTTP/1.1 backend the
     /// message ends with its last body octet; anything written after it would be read as the start of the next request.
-    fn run_trailers(pool: &mut crate::pool::Pool, trailers: &[F]) -> Result<bool, String> {
-        let list: Vec<F> = vec![f(":method", "POST"), f(":scheme", "https"), f(":path", "/upload"), f(":authority", "a.example"), f("content-length", "5")];
+    fn run_trailers(pool: &mut crate::pool::Pool, trailers: &[F], chunked: bool) -> Result<bool, String> {
+        let mut list: Vec<F> = vec![f(":method", "POST"), f(":scheme", "https"), f(":path", "/upload"), f(":authority", "a.example")];
+        if !chunked { list.push(f("content-length", "5")); }
         let mut encoder = loona_hpack::Encoder::new();
         let mut encoded = Vec::new();
         for (n, v) in &list { encoder.encode_header_into((n.as_slice(), v.as_slice()), &mut encoded).map_err(|e| format!("driver: {e:?}"))?; }
@@ -173,7 +174,14 @@
         let mut ctx = HttpContext::new(rusty_ulid::Ulid::generate(), rusty_ulid::Ulid::generate(), crate::Protocol::HTTPS, public, Some(peer), "SOZUBALANCEID".into(), "Sozu-Id".into(), false, false);
         if handle_header(&mut decoder, &mut prioriser, 1, &mut kawa, &encoded, false, &mut ctx, crate::protocol::mux::h2::MAX_HEADER_LIST_SIZE as u32, u32::MAX, false).is_err() { return Ok(false); }
         // the DATA frame, as handle_data_frame queues it for a Content-Length framed message
-        kawa.push_block(Block::Chunk(kawa::Chunk { data: Store::from_slice(b"hello") }));
+        if chunked {
+            // as handle_data_frame queues a DATA frame of a message without Content-Length (chunk-size line, data, end of chunk)
+            kawa.push_block(Block::ChunkHeader(kawa::ChunkHeader { length: Store::from_slice(b"5") }));
+            kawa.push_block(Block::Chunk(kawa::Chunk { data: Store::from_slice(b"hello") }));
+            kawa.push_block(Block::Flags(Flags { end_body: false, end_chunk: true, end_header: false, end_stream: false }));
+        } else {
+            kawa.push_block(Block::Chunk(kawa::Chunk { data: Store::from_slice(b"hello") }));
+        }
         let mut tenc = Vec::new();
         for (n, v) in trailers { encoder.encode_header_into((n.as_slice(), v.as_slice()), &mut tenc).map_err(|e| format!("driver: {e:?}"))?; }
         if handle_header(&mut decoder, &mut prioriser, 1, &mut kawa, &tenc, true, &mut ctx, crate::protocol::mux::h2::MAX_HEADER_LIST_SIZE as u32, u32::MAX, false).is_err() { return Ok(false); }
@@ -184,6 +192,14 @@
         for ob in kawa.out.iter() { if let kawa::OutBlock::Store(s) = ob { wire.extend_from_slice(s.data(kawa.storage.buffer())); } }
         let Some(end) = wire.windows(4).position(|w| w == b"\r\n\r\n") else { return Err(format!("no header section end in {:?}", String::from_utf8_lossy(&wire))) };
         let body = &wire[end + 4..];
+        if chunked {
+            // RFC 9112 §7.1: chunk, last-chunk "0", trailer section, empty line
+            let mut want: Vec<u8> = b"5\r\nhello\r\n0\r\n".to_vec();
+            for (n, v) in trailers { want.extend_from_slice(n); want.extend_from_slice(b": "); want.extend_from_slice(v); want.extend_from_slice(b"\r\n"); }
+            want.extend_from_slice(b"\r\n");
+            if body != want.as_slice() { return Err(format!("a chunked request with trailers is written to the HTTP/1.1 backend with the body {:?}; the chunked coding requires {:?} (last-chunk before the trailer section)", String::from_utf8_lossy(body), String::from_utf8_lossy(&want))); }
+            return Ok(true);
+        }
         if body != b"hello" { return Err(format!("a Content-Length: 5 request with trailers is written to the HTTP/1.1 backend as head + {:?}: the {} octets after the 5 body octets are read by the backend as the start of the next request", String::from_utf8_lossy(body), body.len().saturating_sub(5))); }
         Ok(true)
     }
@@ -226,10 +242,12 @@
             for trailers in [vec![f("x-foo", "bar")], vec![f("grpc-status", "0"), f("grpc-message", "ok")], vec![f("x-a", "GET /smuggled HTTP/1.1")]] {
                 n += 1;
                 let shown: Vec<(String, String)> = trailers.iter().map(|(a, b)| (String::from_utf8_lossy(a).into_owned(), String::from_utf8_lossy(b).into_owned())).collect();
-                match run_trailers(&mut pool, &trailers) {
+                for chunked in [false, true] {
+                match run_trailers(&mut pool, &trailers, chunked) {
                     Ok(true) => accepted += 1,
                     Ok(false) => {}
-                    Err(obs) => { fails.push((format!("HEADERS(POST /upload, content-length: 5), DATA(\"hello\"), trailer HEADERS {shown:?} with END_STREAM"), obs)); break; }
+                    Err(obs) => { fails.push((format!("HEADERS(POST /upload{}), DATA(\"hello\"), trailer HEADERS {shown:?} with END_STREAM", if chunked { "" } else { ", content-length: 5" }), obs)); break; }
+                }
                 }
             }
         }
